@@ -38,6 +38,9 @@ func alphabet(ops []string, snaps []int) []clirig.Event {
 	var l []clirig.Event
 	for _, s := range snaps {
 		for _, op := range ops {
+			if strings.HasPrefix(op, "Use:") && s != snaps[0] {
+				continue // using a broker is not a conversation with the cluster: once, in the first snapshot of the list
+			}
 			l = append(l, clirig.Event{Op: op, Snap: s})
 		}
 	}
@@ -354,12 +357,18 @@ func historyLayer(c *ev.Check, r *runner, a *agg, thorough bool, end time.Time) 
 		vdepth = 2
 	}
 	var variants []map[string]interface{}
+	useEvents := alphabet(append(append([]string{}, ops...), clirig.UseOps...), allSnaps(thorough))
 	for i, v := range []struct {
 		rm   int
 		part bool
-	}{{1, false}, {0, true}} {
+		use  bool
+	}{{1, false, false}, {0, true, false}, {0, false, true}} {
 		tv := time.Now()
-		vb := bfs(c, r, a, "history", events, vdepth, v.rm, v.part, time.Now().Add(time.Until(end)/time.Duration(2-i)))
+		evs := events
+		if v.use {
+			evs = useEvents // ... plus "the application uses the broker it was handed" (connections opened by the application)
+		}
+		vb := bfs(c, r, a, "history", evs, vdepth, v.rm, v.part, time.Now().Add(time.Until(end)/time.Duration(3-i)))
 		hs.varExecs += vb.execs
 		hs.states += len(vb.keys)
 		hs.transitions += vb.transitions
@@ -367,9 +376,9 @@ func historyLayer(c *ev.Check, r *runner, a *agg, thorough bool, end time.Time) 
 			ok = false
 		}
 		m := bfsInfo(vb, vdepth, time.Since(tv))
-		m["retry_max"], m["metadata_full"] = v.rm, !v.part
+		m["retry_max"], m["metadata_full"], m["application_uses_brokers"] = v.rm, !v.part, v.use
 		variants = append(variants, m)
-		fmt.Printf("  history: variant rm=%d full=%v: depth %d/%d fixpoint@%d, %d states, %d transitions (%.1fs)\n", v.rm, !v.part, vb.completed, vdepth, vb.fixpoint, len(vb.keys), vb.transitions, time.Since(tv).Seconds())
+		fmt.Printf("  history: variant rm=%d full=%v use=%v: depth %d/%d fixpoint@%d, %d states, %d transitions (%.1fs)\n", v.rm, !v.part, v.use, vb.completed, vdepth, vb.fixpoint, len(vb.keys), vb.transitions, time.Since(tv).Seconds())
 	}
 	info["variants"] = variants
 	histSamples = b.samples
